@@ -238,7 +238,7 @@ func c06oracle(c *rcluster, cs c06case, sc sessCfg, res sessResult) (string, str
 }
 
 func unitC06(e common.Env, p *common.Part) {
-	p.Rule = "scripted key-generation + signing sessions over PRNG membership maps (shifted, random injective, 1..3 replicas per party with a PRNG choice of the participating replica, duplicate party), loud (real disc.Member), barrier and silent mode, session sizes 2..5, random delivery policies; distinct key = (map, participants, mode, phase); non-trivial when the map is not the identity on the participants"
+	p.Rule = "scripted key-generation + signing sessions over PRNG membership maps (shifted, random injective, 1..3 replicas per party with a PRNG choice of the participating replica, duplicate party; in every third case the party assignment of the same nodes is replaced between sessions on the same scheme objects), loud (real disc.Member), barrier and silent mode, session sizes 2..5, random delivery policies; distinct key = (map, participants, mode, phase); non-trivial when the map is not the identity on the participants"
 	p.Assumptions = append(p.Assumptions, "exactly the expected number of members invoke each call; quick tier: ids <= 250 (large ids are C13's subject), thorough: full 16-bit range incl. byte boundaries")
 	n := e.Pick(140, 12000)
 	for i := 0; i < n; i++ {
@@ -262,8 +262,49 @@ func unitC06(e common.Env, p *common.Part) {
 		if cs.Dup {
 			timeout = 1500 * time.Millisecond
 		}
-		for _, sign := range []bool{false, true} {
-			sc := sessCfg{Callers: cs.Callers, Sign: sign, Topic: fmt.Sprintf("c06-topic-%d", i), Digest: []byte("digest-of-a-message-to-be-signed!"), Script: script, Timeout: timeout}
+		type phaseT struct {
+			sign   bool
+			remap  bool
+			suffix string
+		}
+		phases := []phaseT{{false, false, ""}, {true, false, ""}}
+		if !cs.Dup && i%3 == 0 && cs.Mode != "silent" { // (a second key generation in silent mode re-uses the constant DKG topic: known finding of C12)
+			// the membership function is consulted at every call: the same nodes get another party assignment (party ids
+			// rotated among the parties and shifted), then both phases run again on the same scheme objects
+			phases = append(phases, phaseT{false, true, "-remapped"}, phaseT{true, false, "-remapped"})
+		}
+		for _, ph := range phases {
+			sign := ph.sign
+			if ph.remap {
+				var ps []uint16
+				seen := map[uint16]bool{}
+				for _, pid := range cs.Map {
+					if !seen[pid] {
+						seen[pid] = true
+						ps = append(ps, pid)
+					}
+				}
+				sort.Slice(ps, func(a, b int) bool { return ps[a] < ps[b] })
+				rot := map[uint16]uint16{}
+				for k, pid := range ps {
+					rot[pid] = ps[(k+1)%len(ps)]
+				}
+				nm := map[uint16]uint16{}
+				for u, pid := range cs.Map {
+					nm[u] = rot[pid]
+				}
+				if len(ps) == 1 {
+					nm = map[uint16]uint16{}
+					for u, pid := range cs.Map {
+						nm[u] = pid + 1
+					}
+				}
+				cs.Map = nm
+				c.SetMap(nm)
+				nonIdentity = true
+				p.Count("remapped_clusters", 1)
+			}
+			sc := sessCfg{Callers: cs.Callers, Sign: sign, Topic: fmt.Sprintf("c06-topic-%d%s", i, ph.suffix), Digest: []byte("digest-of-a-message-to-be-signed!"), Script: script, Timeout: timeout}
 			if sign {
 				for _, u := range cs.Callers {
 					c.Schemes[u].SetStoredData([]byte("share-of-x"))
@@ -274,6 +315,7 @@ func unitC06(e common.Env, p *common.Part) {
 			if sign {
 				phase = "sign"
 			}
+			phase += ph.suffix
 			p.Case(key+"|"+phase, nonIdentity)
 			p.Count("sessions", 1)
 			p.Count("sessions_"+cs.Mode, 1)
